@@ -144,7 +144,7 @@ def _decision_items(tier, seed):
         if n <= 8:
             out += _lat_items(t, s, "A4")
         elif n == 9:
-            out += _lat_items(t, s, "A4")
+            out += _lat_items(t, s, "A4" if tier == "thorough" else "A3")
         elif n == 12:
             if tier == "thorough":
                 out += _lat_items(t, s, "A2")
@@ -232,6 +232,8 @@ def _big_items(tier, seed):
             out.append(("bigperm", n, c0, min(c0 + step, factorial(n))))
     for t, s in BIG_SHAPES_Q:
         out.append(("bigfam", t, s, seed))
+    for t, s in KNOWN_SHAPES:
+        out.append(("bigknown", t, s, seed))
     return out
 
 
@@ -268,7 +270,6 @@ def items(tier, seed):
     out += _reward_items(tier, seed)
     out += _engine_items(tier, seed)
     out += [("scenario", pol, kind, seed) for pol in SCEN_POLICIES for kind in SCEN_REWARDS]
-    # interleave heavy and light items deterministically so that workers stay balanced
     return out
 
 
@@ -281,7 +282,7 @@ def bounds(tier, seed):
         "shapes": "all T x S with 1 <= T,S <= 4 (T targets = rows, S sensors = columns)",
         "masked_lattices": {
             "T*S<=8": "all masks x rewards {-1,0,1,2} on the visible entries (5^(T*S) points)",
-            "3x3": "all masks x {-1,0,1,2}",
+            "3x3": "all masks x {-1,0,2} (quick) / {-1,0,1,2} (thorough)",
             "3x4,4x3": "quick: named masks x {0,1}; thorough: all masks x {0,1}, all-visible x {0,1,2}, named x {-1,1}",
             "4x4": "named masks (all, none, diag, offdiag, checker, single-zero, single-one) x {0,1}; thorough adds "
             "{0,1,2}^16 all-visible and {-1,1}/{0,1,2} on the structured masks",
@@ -289,7 +290,9 @@ def bounds(tier, seed):
         },
         "beyond_4x4": "deterministic families instead of random matrices: all permutation-matrix rewards x {1,2} "
         "for n=5,6 (7 thorough) under 4 masks; strictly ordered / rank-one / constant / cyclic families for shapes "
-        + str(BIG_SHAPES_Q),
+        + str(BIG_SHAPES_Q)
+        + "; beyond 8x8 (no brute force possible): constructed rewards with a known optimum (scaled one-to-one maps "
+        "and their negated complements: shifts, reversal, affine maps) under 4 masks for shapes " + str(KNOWN_SHAPES),
         "policies": ["MunkresDecision", "MyopicNaiveGreedyDecision", "RandomDecision", "AllVisibleDecision"],
         "rewards": {k: [list(sh) for sh in REWARD_SHAPES] for k in REWARD_KINDS},
         "work_items_by_kind": kinds,
@@ -566,7 +569,7 @@ def _run_maskonly(res, item):
                  outcome=f"tasked={int(d[i].sum())}", item=None if ok else ("maskonly", t, s, seed, int(c[i]), int(c[i]) + 1))
     # random: two generators with the same seed (one from the config factory, one constructed directly) over the
     # same input sequence, and one with another seed
-    for rs in (seed, seed + 1):
+    for rs in (seed, seed + 1) if t * s < 16 else (seed,):
         a = decisionFactory(RandomDecisionConfig(seed=rs))
         b = RandomDecision(seed=rs)
         da, ea = _call_batch(a, rew.copy(), vis.copy())
@@ -853,6 +856,73 @@ def _run_bigfam(res, item):
                lambda i: {"family": names[i][0], "mask": names[i][1]}, item)
 
 
+
+# ------------------------------------------------------------------------------------------------ up to 40 x 40
+KNOWN_SHAPES = [(9, 9), (12, 12), (16, 16), (25, 25), (40, 40), (40, 25), (25, 40), (12, 30), (30, 7)]
+
+
+def _injections(t, s, seed):
+    """Deterministic one-to-one maps from the smaller side into the larger (as boolean T x S matrices)."""
+    small, large = min(t, s), max(t, s)
+    maps = {
+        "shift0": [i % large for i in range(small)],
+        "shift1": [(i + 1) % large for i in range(small)],
+        f"shift{2 + seed % (large - 2)}": [(i + 2 + seed % (large - 2)) % large for i in range(small)],
+        "reverse": [large - 1 - i for i in range(small)],
+    }
+    for a in (3, 7, 11):
+        if np.gcd(a, large) == 1:
+            maps[f"affine{a}"] = [(a * i + 5 + seed) % large for i in range(small)]
+    out = {}
+    for name, img in maps.items():
+        p = np.zeros((t, s), dtype=bool)
+        if t <= s:
+            p[np.arange(small), img] = True
+        else:
+            p[img, np.arange(small)] = True
+        out[name] = p
+    return out
+
+
+def _run_bigknown(res, item):
+    """Sizes where n! brute force is impossible (the property text: up to 40 x 40): reward matrices whose optimum
+    is known by construction.  R = c*P (P a one-to-one map of the smaller side): every optimal complete
+    assignment contains all visible pairs of P, and for the all-visible mask P is the unique optimum;
+    R = -c*(1-P): every tasked pair lies on P.  The greedy reference is O(T*S) and is used in full."""
+    _, t, s, seed = item
+    decs = _decisions()
+    masks = _big_masks(t, s)
+    for pname, pm in _injections(t, s, seed).items():
+        for scale in (1.0, 2.0):
+            for variant in ("positive", "negative"):
+                for mname, m in masks.items():
+                    raw = scale * pm if variant == "positive" else -scale * (~pm)
+                    rew = np.where(m, raw, 0.0)[None]
+                    vis = m[None].copy()
+                    case = {"T": t, "S": s, "map": pname, "scale": scale, "variant": variant, "mask": mname}
+                    for pol in POLICIES:
+                        d, errors = _call_batch(decs[pol], rew.copy(), vis.copy())
+                        res.observe(d)
+                        c = dict(case, policy=pol)
+                        if errors:
+                            res.case(f"{pol}/upto40x40", c, False, signature=f"C07/{pol}/exception", observed=errors[0], item=item)
+                            continue
+                        d0 = d[0]
+                        feas = not (d0 & ~m).any() and d0.sum(axis=0).max() <= 1 and (pol != "munkres" or d0.sum(axis=1).max() <= 1)
+                        if pol == "greedy":
+                            ok, _u, _ = orc.greedy_oracle(rew, vis, d)
+                            good = bool(ok[0])
+                        elif variant == "positive":
+                            good = bool((d0 & pm & m == pm & m).all()) and (mname != "all" or bool((d0 == pm).all()))
+                        else:
+                            good = bool((d0 & ~(pm & m)).sum() == 0) and (mname != "all" or bool((d0 == pm).all()))
+                        res.case(f"{pol}/upto40x40", c, bool(feas and good), nontrivial=mname != "all",
+                                 signature=f"C07/{pol}/upto40x40/" + ("infeasible" if not feas else "known_optimum_missed"),
+                                 observed=None if (feas and good) else np.argwhere(d0).tolist(),
+                                 expected=None if (feas and good) else np.argwhere(pm & m).tolist(),
+                                 outcome=f"tasked_is_P={bool((d0 == (pm & m)).all())}", item=item)
+
+
 # ------------------------------------------------------------------------------------------------ rewards
 class _Stub:
     """Mixin: value of the metric for a (target, sensor) pair is looked up in a table set by the harness."""
@@ -945,15 +1015,17 @@ def _reward_plan(kind, shape, tier):
             combos = [(o, dl) for o in orders for dl in (None, 0.5, 0.25)]
         else:
             combos = [(o, None) for o in orders] + [(base, 0.5), (base[::-1], 0.25), (orders[3], 0.5)]
-        variants = [(o, dl, _slice_family(shape, False)) for o, dl in combos]
+        variants = [(o, dl, _slice_family(shape, shape == (2, 1) and not thorough)) for o, dl in combos]
     elif kind == "combined":
         base = ("information", "stability", "sensor", "target")
         orders = list(permutations(base))
         if n == 2 and not thorough:
-            orders = orders[::3] if shape == (1, 2) else orders[1::4]
+            orders = orders[::4] if shape == (1, 2) else orders[1::6]
         elif n > 2 and not thorough:
             orders = orders[::2] if (shape[0] + shape[1]) % 2 else orders[1::2]
         combos = [(o, None) for o in orders] + [(base, 0.5), (base[::-1], 0.25)]
+        if n == 2 and not thorough:
+            combos = combos[:-1] if shape == (1, 2) else combos[:-2] + [(base[::-1], 0.25)]
         variants = [(o, dl, _slice_family(shape, not thorough or n > 2)) for o, dl in combos]
     else:
         combos = [
@@ -1022,17 +1094,19 @@ def _run_reward(res, item):
                 for i in range(t):
                     for j in range(s):
                         got[i, j] = reward.calculateMetrics(ests[i], sens[j])
-                res.case("reward/calculateMetrics_order", case, bool((got == tensor).all()),
-                         signature=f"C07/reward/{kind}/calculateMetrics", observed=got.tolist(), expected=tensor.tolist(), item=it)
+                ok_m = bool((got == tensor).all())
+                res.case("reward/calculateMetrics_order", case, ok_m, signature=f"C07/reward/{kind}/calculateMetrics",
+                         observed=None if ok_m else got.tolist(), expected=None if ok_m else tensor.tolist(), item=it)
                 norm = reward.normalizeMetrics(got.copy())
                 ref_norm = orc.normalise_ref(tensor)
                 ntops = np.asarray(norm).reshape(-1, p).max(axis=0)
-                res.case("reward/normalised_at_most_one", case, bool((ntops <= 1.0 + 1e-12).all()),
-                         signature=f"C07/reward/{kind}/normalised_max_above_one", observed=ntops.tolist(), expected="<= 1", item=it)
+                ok_top = bool((ntops <= 1.0 + 1e-12).all())
+                res.case("reward/normalised_at_most_one", case, ok_top, signature=f"C07/reward/{kind}/normalised_max_above_one",
+                         observed=None if ok_top else ntops.tolist(), expected="<= 1", item=it)
                 ok_norm = np.asarray(norm).shape == ref_norm.shape and fw.maxabs(norm, ref_norm) <= TOL
                 res.case("reward/normalised_is_metric_over_max", case, bool(ok_norm),
-                         signature=f"C07/reward/{kind}/normalisation_value", observed=np.asarray(norm).tolist(),
-                         expected=ref_norm.tolist(), outcome=f"slices_normalised={int(((tops > 0) & (tops != 1.0)).sum())}", item=it)
+                         signature=f"C07/reward/{kind}/normalisation_value", observed=None if ok_norm else np.asarray(norm).tolist(),
+                         expected=None if ok_norm else ref_norm.tolist(), outcome=f"slices_normalised={int(((tops > 0) & (tops != 1.0)).sum())}", item=it)
                 # through the engine: calculateRewards() = normalise + formula + reshape to (targets, sensors)
                 engine.metric_matrix = tensor.copy()
                 engine.visibility_matrix = np.ones((t, s), dtype=bool)
@@ -1041,12 +1115,13 @@ def _run_reward(res, item):
                 ref = orc.reward_ref(kind, types, ref_norm, dval)
                 ok = rmat.shape == (t, s) and bool(np.isfinite(rmat).all()) and fw.maxabs(rmat, ref) <= TOL
                 res.case(f"reward/formula/{kind}", case, ok, nontrivial=nontriv,
-                         signature=f"C07/reward/{kind}/formula", observed=rmat.tolist(), expected=ref.tolist(),
+                         signature=f"C07/reward/{kind}/formula", observed=None if ok else rmat.tolist(),
+                         expected=None if ok else ref.tolist(),
                          outcome=stab_label, item=it)
                 direct = np.asarray(reward.calculate(ref_norm.copy()), dtype=float)
                 ok_d = direct.size == t * s and fw.maxabs(direct.reshape(t, s), ref) <= TOL
                 res.case(f"reward/calculate_direct/{kind}", case, ok_d, signature=f"C07/reward/{kind}/calculate_direct",
-                         observed=direct.tolist(), expected=ref.tolist(), item=it)
+                         observed=None if ok_d else direct.tolist(), expected=None if ok_d else ref.tolist(), item=it)
                 res.observe(rmat)
             except Exception as exc:  # noqa: BLE001
                 res.case(f"reward/no_exception/{kind}", case, False, signature=f"C07/reward/{kind}/exception",
@@ -1207,8 +1282,13 @@ def _run_scenario(res, item):
     if pol == "random":
         eng["decision"]["seed"] = seed + 3
     sc = scen.build(scen.config(start, n_steps + 1, [eng], physics=step))
-    sc.propagateTo(getTargetJulianDate(sc.clock.julian_date_start, timedelta(seconds=n_steps * step)))
-    rows = sc.database.getData(Query(Task))
+    try:
+        sc.propagateTo(getTargetJulianDate(sc.clock.julian_date_start, timedelta(seconds=n_steps * step)))
+        rows = sc.database.getData(Query(Task))
+    except Exception as exc:  # noqa: BLE001 - an exception out of the tasking step is a finding, not a harness error
+        res.case("scenario/no_exception", {"policy": pol, "reward": kind}, False, signature=f"C07/scenario/{pol}/exception",
+                 observed=f"{type(exc).__name__}: {exc}", expected="3 tasking steps complete", item=item)
+        return
     tids, sids = [10001, 10002, 10003, 10004], [20001, 20002]
     t, s = len(tids), len(sids)
     by_epoch = {}
@@ -1225,7 +1305,8 @@ def _run_scenario(res, item):
         for r in rws:
             i, j = tids.index(r.target_id), sids.index(r.sensor_id)
             pairs.add((i, j))
-            vis[i, j], dec[i, j], rew[i, j] = bool(r.visibility), bool(r.decision), float(r.reward)
+            vis[i, j], dec[i, j] = bool(r.visibility), bool(r.decision)
+            rew[i, j] = float("nan") if r.reward is None else float(r.reward)  # sqlite stores NaN as NULL
         complete = len(rws) == t * s and len(pairs) == t * s and bool(np.isfinite(rew).all())
         res.case("scenario/task_rows_complete", case, complete, signature="C07/scenario/task_rows", observed=len(rws),
                  expected=t * s, item=item)
@@ -1266,6 +1347,7 @@ _RUNNERS = {
     "unmasked": _run_unmasked,
     "bigperm": _run_bigperm,
     "bigfam": _run_bigfam,
+    "bigknown": _run_bigknown,
     "reward": _run_reward,
     "engine": _run_engine,
     "scenario": _run_scenario,
@@ -1274,5 +1356,14 @@ _RUNNERS = {
 
 def run_item(item):
     res = fw.Result()
-    _RUNNERS[item[0]](res, item)
+    try:
+        _RUNNERS[item[0]](res, item)
+    except Exception as exc:  # noqa: BLE001
+        # every call into the library is individually guarded above; anything that still escapes (e.g. a value of an
+        # impossible type read back from the tasks table) is reported as a violation of this item rather than
+        # aborting the whole run and hiding the other violations behind a harness error
+        import traceback  # noqa: PLC0415
+
+        res.case(f"{item[0]}/unhandled_exception", {"item_kind": item[0]}, False,
+                 signature=f"C07/{item[0]}/unhandled_exception", observed=traceback.format_exc()[-1500:], item=item)
     return res
